@@ -47,6 +47,7 @@ CONSTANTS
   Chunks,        \* payload sizes written in one Forward
   Faults,        \* injected faults enabled in this instance
   Features,      \* optional actions enabled: "time","close","rabort","cabort","abort","sclose","updown";
+                 \* "quietreserve": reservations only while no attempt is in flight;
                  \* "probe": a connect that passes every check is failed at the stop handshake write
                  \* (the instances about reservations use connects only to observe reservations)
   Static         \* links that are up from the start and never go down
@@ -187,6 +188,7 @@ ReserveWhy(l) ==
 Reserve(l, ab) ==
   /\ l \in up
   /\ ab => "rabort" \in Features
+  /\ "quietreserve" \in Features => Busy = {}     \* bound for the instances about one circuit
   /\ LET p == LinkPeer[l]
          a == LinkAddr[l]
          why == ReserveWhy(l)
@@ -247,6 +249,8 @@ ConnectBegin(l, d, fault, via) ==
          e == ConnectExit(l, d, fault)
          c == CHOOSE x \in Slots : att[x].st = "free" /\ \A y \in Slots : att[y].st = "free" => x <= y
      IN /\ fault # "none" => e = fault          \* a fault is scheduled only where it is the exit taken
+        \* exits taken before the destination is looked at: one destination is enough
+        /\ fault \in {"h_svc", "h_mem", "h_bad", "mem", "badpeer"} => d = (CHOOSE x \in Peers \ {s} : TRUE)
         /\ IF e \in {"svc", "smem", "swrite", "hs"} THEN via \in DirectUp(d, up) ELSE via = "-"
         /\ IF e = "hs"
            THEN /\ circ' = [circ EXCEPT ![s] = @ + 1, ![d] = @ + 1]
